@@ -188,24 +188,26 @@ def transcript_stage(prop, pools, seeds_per_tier, repeat):
         import transcripts
         tier, seed = api["tier"], api["seed"]
         n = seeds_per_tier[1] if tier == "thorough" else seeds_per_tier[0]
+        # the thorough tier adds pool sizes that are neither a power of two nor the machine's core count
+        pools_ = sorted(set(pools + [3, 5, 8])) if (tier == "thorough" and len(pools) > 2) else pools
         res = {"evaluations": 0, "nontrivial": 0, "counters": {}, "samples": [], "violations": [], "harness_errors": []}
         for k in range(n):
             s = seed * 1000 + k
-            rc, info = transcripts.compare(prop, s, pools, repeat)
-            res["evaluations"] += len(pools) * repeat
+            rc, info = transcripts.compare(prop, s, pools_, repeat)
+            res["evaluations"] += len(pools_) * repeat
             if rc == 2:
                 res["harness_errors"].append(f"transcript worker failed (seed {s})")
                 continue
-            res["nontrivial"] += len(pools) * repeat
-            res["counters"]["transcript_processes"] = res["counters"].get("transcript_processes", 0) + len(pools) * repeat
-            res["counters"]["transcript_lines_compared"] = res["counters"].get("transcript_lines_compared", 0) + info["lines"] * (len(pools) * repeat - 1)
+            res["nontrivial"] += len(pools_) * repeat
+            res["counters"]["transcript_processes"] = res["counters"].get("transcript_processes", 0) + len(pools_) * repeat
+            res["counters"]["transcript_lines_compared"] = res["counters"].get("transcript_lines_compared", 0) + info["lines"] * (len(pools_) * repeat - 1)
             if k == 0:
-                res["samples"].append({"transcript_seed": s, "pool_sizes": pools, "lines": info["sample"]})
+                res["samples"].append({"transcript_seed": s, "pool_sizes": pools_, "lines": info["sample"]})
             if rc == 1:
-                argv = ["python3", "lib/transcripts.py", "compare", prop, str(s), ",".join(map(str, pools)), "--repeat", str(repeat)]
+                argv = ["python3", "lib/transcripts.py", "compare", prop, str(s), ",".join(map(str, pools_)), "--repeat", str(repeat)]
                 res["violations"].append({
-                    "violation": {"property": prop, "class": f"{prop}|transcript|differs_or_invariant", "clause": "transcript", "detail": f"transcripts differ between processes / pool sizes {pools} or an invariant line is false (seed {s}); run the replay for the lines"},
-                    "trace": {"engine": "transcript", "property": prop, "seed": s, "pools": pools, "variant": "default"},
+                    "violation": {"property": prop, "class": f"{prop}|transcript|differs_or_invariant", "clause": "transcript", "detail": f"transcripts differ between processes / pool sizes {pools_} or an invariant line is false (seed {s}); run the replay for the lines"},
+                    "trace": {"engine": "transcript", "property": prop, "seed": s, "pools": pools_, "variant": "default"},
                     "replay_argv": argv, "variant": "default", "seed": f"transcript-{s}",
                 })
         return res
